@@ -7,6 +7,7 @@ from sa.kinds import (key, utext, call_name, recv_text, calls_in, node_calls, ca
                       loop_body_exits_early, all_stores)
 from sa.cfg import walk_calls, walk_nodes
 from sa.kinds import resolve_local
+from sa.kinds import expanded as _expanded
 from sa.astutil import canon_text as ct
 
 EXPLANATION = (
@@ -153,7 +154,7 @@ def _rest(ctx, rep):
     cfga = ctx.cfg(am)
     om = node_calls(cfga, "open_market")
     good = len(om) == 1 and [(utext(g.exprs[0]), pol) for g, pol in cfga.guards(om[0][0].id)] == [("market_id in self._markets", True)] \
-        and recv_text(om[0][1]) == "self._markets[market_id]"
+        and _expanded(am, om[0][1].func.value) == "self._markets[market_id]"
     rep.check(good, "R3", key(am, None, "adding a known market id re-opens the stored market"), am)
     opm = prog.own_method("Market", "open_market")
     st = {utext(s.targets[0]): utext(s.value) for s in walk_nodes(opm.node.body, ast.Assign)}
@@ -250,12 +251,31 @@ def _rest(ctx, rep):
         good = kw == {"clear": "False"} and utext(sim_rm[0][1].args[0]) == "market"
     rep.check(good, "R4", key(f, None, "simulation releases the closing market's accounting but keeps the market"), f)
     lcs = [x for x in walk_nodes(f.node.body, ast.ListComp) if utext(x.generators[0].iter) == "self.markets"]
-    good = len(lcs) == 1
+    # the same selection written as a loop: `for m in self.markets: ... closed.append(m)` - the conditions are
+    # the guards of the append (locals that name `m.elapsed_seconds_closed` read back)
+    loop_form = None
+    if not lcs:
+        from sa.kinds import expanded
+        for lp_ in walk_nodes(f.node.body, ast.For):
+            if utext(lp_.iter) == "self.markets" and isinstance(lp_.target, ast.Name):
+                apps = [(n_, c_) for n_, c_ in node_calls(cfg, "append") if c_ in walk_calls(lp_.body)
+                        and [utext(a) for a in c_.args] == [lp_.target.id] and isinstance(c_.func.value, ast.Name)]
+                if len(apps) == 1:
+                    gs_ = [(expanded(f, g.exprs[0]), pol) for g, pol in cfg.guards(apps[0][0].id)
+                           if lp_.target.id in [x.id for x in ast.walk(g.exprs[0]) if isinstance(x, ast.Name)]
+                           or any(isinstance(x, ast.Name) and x.id != "self" for x in ast.walk(g.exprs[0]))]
+                    gs_ = [(t_, p_) for t_, p_ in gs_ if "%s." % lp_.target.id in t_]
+                    if all(p_ for t_, p_ in gs_):
+                        loop_form = (lp_.target.id, [t_ for t_, p_ in gs_], recv_text(apps[0][1]))
+    good = len(lcs) == 1 or loop_form is not None
     if good:
         conds = []
-        for c2 in lcs[0].generators[0].ifs:
-            conds += [utext(v) for v in c2.values] if isinstance(c2, ast.BoolOp) and isinstance(c2.op, ast.And) else [utext(c2)]
-        v = utext(lcs[0].generators[0].target)
+        if lcs:
+            for c2 in lcs[0].generators[0].ifs:
+                conds += [utext(v) for v in c2.values] if isinstance(c2, ast.BoolOp) and isinstance(c2.op, ast.And) else [utext(c2)]
+            v = utext(lcs[0].generators[0].target)
+        else:
+            v, conds = loop_form[0], loop_form[1]
         def at_least_an_hour(txt):
             """the threshold: the literal 3600, or a value that provably is never below it"""
             e = ast.parse(txt, mode="eval").body
@@ -273,7 +293,10 @@ def _rest(ctx, rep):
         thr = [x for x in thr if x is not None]
         good = "%s.closed" % v in conds and len(thr) == 1 and thr[0] is not None and thr[0][1] == ">" and at_least_an_hour(thr[0][2])
         lp3 = [x for x in walk_nodes(f.node.body, ast.For) if live_rm and live_rm[0][1] in walk_calls(x.body)]
-        d = [s for s in walk_nodes(f.node.body, ast.Assign) if s.value is lcs[0]]
+        d = [s for s in walk_nodes(f.node.body, ast.Assign) if lcs and s.value is lcs[0]]
+        if loop_form:
+            d = [s for s in walk_nodes(f.node.body, ast.Assign) if utext(s.targets[0]) == loop_form[2] and utext(s.value) in ("[]", "list()")]
+            d = d if len(d) == 1 else []
         good = good and len(lp3) == 1 and d and utext(lp3[0].iter) == utext(d[0].targets[0]) and \
             utext(live_rm[0][1].args[0]) == utext(lp3[0].target) and not live_rm[0][1].keywords
     rep.check(good, "R4", key(f, None, "live trading removes only markets closed for more than 3600 seconds"), f)
